@@ -678,13 +678,15 @@ func ruleSettingSources(c *core.Ctx, rule string) {
 func init() {
 	register(&Property{
 		ID:    "C16",
-		Rules: []string{"C16-R1", "C16-R2", "C16-R3", "C16-R4", "C16-R5", "C16-R6", "C16-R7"},
+		Rules: []string{"C16-R1", "C16-R2", "C16-R3", "C16-R4", "C16-R5", "C16-R6", "C16-R7", "C16-R8", "C16-R9"},
 		Explain: "Decides the precedence machinery of settings: C16-R1 the configuration-file decision table of Options.Load over stat ∈ {ok, not-exist, other error} x IsSet(config) x useConfigFile (exists ⇒ read; named but missing ⇒ error; default missing ⇒ skipped; stat error ⇒ error); " +
 			"C16-R2 each of the five settings is written from its own flag only when the flag/environment is set or the value is still empty, a set flag always wins, and --today is parsed with the effective date format; " +
 			"C16-R3 flag declarations, README option listing, defaults and documented configuration keys agree, and every flag the code reads is declared; C16-R4 --no-database leaves no book to open; " +
 			"C16-R5 the opener, the resolver's bound and the keyword resolver's now are reached by their documented sources (flag, configuration file, default); " +
 			"C16-R6 the configuration file is read into the live options structure (or a complete copy that is completely copied back), so defaults survive for every key the file does not set; " +
-			"C16-R7 the resolver's entry points hand the configured depth limit to the walk untransformed.",
+			"C16-R7 the resolver's entry points hand the configured depth limit to the walk untransformed; " +
+			"C16-R8 every command configuration literal sets each options section it has a field for (none runs on a zero-valued section); " +
+			"C16-R9 a setting's flag that is declared on a command as well as on the application is read through the context lineage, so the global flag and its environment variable are not shadowed.",
 		NotDecided:  "urfave/cli's own flag-over-environment precedence and gcfg's parsing (trusted)",
 		Assumptions: []string{"urfave/cli: IsSet is true for a flag given on the command line or through its environment variable; String/Int return the flag's default otherwise", "gcfg.ReadInto fills only the gcfg-tagged sections"},
 		Run: func(c *core.Ctx) {
@@ -694,6 +696,15 @@ func init() {
 			ruleSettingSources(c, "C16-R5")
 			ruleConfigTarget(c, "C16-R6")
 			ruleResolverEntries(c, "C16-R7", false, true)
+			ruleConfigLiterals(c, "C16-R8", nil)
+			ruleLineage(c, "C16-R9", func(n string) bool {
+				for _, f := range settingFlag {
+					if f == n {
+						return true
+					}
+				}
+				return n == "config" || n == "no-database"
+			})
 		},
 	})
 }
@@ -864,5 +875,95 @@ func ruleConfigTarget(c *core.Ctx, rule string) {
 	}
 	if n == 0 {
 		c.Undecide(rule, "options", "universe", "-", "no call of gcfg.Read*Into found although a configuration file is documented", nil)
+	}
+}
+
+// ruleConfigLiterals: every command-level configuration structure that is
+// built from the loaded options carries each options section it has a field
+// for. A section left out of the literal is the zero value — for the parser
+// configuration that means no comment character, so comment and note lines are
+// read as headings and entries.
+func ruleConfigLiterals(c *core.Ctx, rule string, want func(t types.Type) bool) {
+	optT := c.P.LookupType(optionsPkg, "Options")
+	if !requireAnchor(c, rule, "options.Options", optT != nil) {
+		return
+	}
+	sections := map[string]bool{}
+	if st, ok := optT.Underlying().(*types.Struct); ok {
+		for i := 0; i < st.NumFields(); i++ {
+			if _, isStruct := st.Field(i).Type().Underlying().(*types.Struct); isStruct {
+				sections[st.Field(i).Type().String()] = true
+			}
+		}
+	}
+	n := 0
+	for _, fn := range c.P.Funcs {
+		if !strings.HasPrefix(core.FnPkgPath(fn), core.CmdPath) {
+			continue
+		}
+		for _, b := range fn.Blocks {
+			for _, in := range b.Instrs {
+				al, ok := in.(*ssa.Alloc)
+				if !ok {
+					continue
+				}
+				named, ok := al.Type().(*types.Pointer).Elem().(*types.Named)
+				if !ok || named.Obj().Pkg() == nil || !strings.HasPrefix(named.Obj().Pkg().Path(), core.CmdPath) || named.String() == optT.String() {
+					continue
+				}
+				st, ok := named.Underlying().(*types.Struct)
+				if !ok {
+					continue
+				}
+				var need []int
+				for i := 0; i < st.NumFields(); i++ {
+					ft := st.Field(i).Type()
+					if sections[ft.String()] && (want == nil || want(ft)) {
+						need = append(need, i)
+					}
+				}
+				if len(need) == 0 {
+					continue
+				}
+				// is this a literal being filled (some field stored) rather than a zero value that is overwritten as a whole?
+				stored := map[int]bool{}
+				whole := false
+				for _, r := range *al.Referrers() {
+					switch r := r.(type) {
+					case *ssa.FieldAddr:
+						for _, rr := range *r.Referrers() {
+							if s, ok := rr.(*ssa.Store); ok && s.Addr == ssa.Value(r) {
+								stored[r.Field] = true
+							}
+						}
+					case *ssa.Store:
+						if r.Addr == ssa.Value(al) {
+							whole = true
+						}
+					}
+				}
+				if whole || len(stored) == 0 {
+					continue
+				}
+				n++
+				fname := core.FuncName(fn)
+				pos := c.P.Pos(al.Pos())
+				var missing []string
+				for _, i := range need {
+					if !stored[i] {
+						missing = append(missing, st.Field(i).Name())
+					}
+				}
+				disc := named.Obj().Name() + " literal"
+				if len(missing) == 0 {
+					c.Discharge(rule, fname, disc, pos, fmt.Sprintf("all %d options sections the structure has a field for are set", len(need)))
+				} else {
+					c.Violate(rule, fname, disc, pos, fmt.Sprintf("the %s handed to the command leaves %s unset: the command runs with the zero value of that section instead of the loaded options (for the parser configuration: no comment character, so comment and note lines are parsed as headings and entries)", named.Obj().Name(), strings.Join(missing, ", ")), nil)
+				}
+			}
+		}
+	}
+	if n == 0 {
+		c.Undecide(rule, "commands", "universe", "-", "no command builds a configuration structure from the options: the rule found nothing to check", nil)
 	}
 }
